@@ -28,8 +28,8 @@ use tokio::sync::oneshot;
 pub const TOKENS: [&str; 3] = ["aaa", "bbb", "ccc"];
 /// never stored anywhere: must never match
 pub const ABSENT: &str = "aab";
-pub const MODEL_ON: &str = "ns { P { a:String nullable, b:String nullable } }";
-pub const MODEL_OFF: &str = "ns { P(no_full_text_index) { a:String nullable, b:String nullable } }";
+pub const MODEL_ON: &str = "ns { P { a:String nullable, b:String nullable } H { kids:[ns.P] nullable } }";
+pub const MODEL_OFF: &str = "ns { P(no_full_text_index) { a:String nullable, b:String nullable } H { kids:[ns.P] nullable } }";
 pub const SEARCH_QUERY: &str = "query { ns.P(search($s)) { id } }";
 pub const SHARDS: usize = 16;
 
@@ -56,6 +56,10 @@ fn val_lit(v: Val) -> String {
 pub enum Ev {
     /// local creation
     Create { a: Val, b: Val },
+    /// local creation of the row as a sub entity of a new holder row (one mutation)
+    CreateNested { a: Val, b: Val },
+    /// local update of field a of the `row`-th live row, written as a sub entity of a new holder row
+    SetANested { row: usize, v: Val },
     /// local update of one field of the `row`-th live row (rowid order)
     SetA { row: usize, v: Val },
     SetB { row: usize, v: Val },
@@ -74,6 +78,8 @@ impl Ev {
     pub fn kind(&self) -> &'static str {
         match self {
             Ev::Create { .. } => "create",
+            Ev::CreateNested { .. } => "create-nested",
+            Ev::SetANested { .. } => "update-nested",
             Ev::SetA { .. } | Ev::SetB { .. } => "update",
             Ev::Clear { .. } => "clear",
             Ev::Delete { .. } => "delete",
@@ -231,8 +237,8 @@ impl World {
     pub fn enabled(&self, ev: &Ev, max_rows: usize) -> bool {
         let n = self.sh.rows.len();
         match ev {
-            Ev::Create { .. } | Ev::DeliverNew { .. } => n < max_rows,
-            Ev::SetA { row, .. } | Ev::SetB { row, .. } | Ev::Clear { row } | Ev::Delete { row } => *row < n,
+            Ev::Create { .. } | Ev::CreateNested { .. } | Ev::DeliverNew { .. } => n < max_rows,
+            Ev::SetA { row, .. } | Ev::SetANested { row, .. } | Ev::SetB { row, .. } | Ev::Clear { row } | Ev::Delete { row } => *row < n,
             Ev::DeliverVersion { row, .. } => *row < n,
             Ev::Toggle => true,
         }
@@ -308,7 +314,8 @@ impl World {
         let now = tick_clock();
         let engine_on = self.engine_indexes();
         match ev {
-            Ev::Create { a, b } => {
+            Ev::Create { a, b } | Ev::CreateNested { a, b } => {
+                let nested = matches!(ev, Ev::CreateNested { .. });
                 let mut fields = String::new();
                 if *a != NULL {
                     fields.push_str(&format!("a:{} ", val_lit(*a)));
@@ -319,9 +326,13 @@ impl World {
                 if fields.is_empty() {
                     fields.push_str("a:null ");
                 }
-                let text = format!("mutate {{ ns.P {{ {} }} }}", fields);
+                let text = if nested { format!("mutate {{ ns.H {{ kids:[{{ {} }}] }} }}", fields) } else { format!("mutate {{ ns.P {{ {} }} }}", fields) };
                 let q = self.lp.mutate(&text, Parameters::default())?;
-                let id = q.mutate_entities[0].node_to_mutate.id;
+                let id = if nested {
+                    q.mutate_entities[0].sub_nodes.get("kids").and_then(|k| k.first()).ok_or("nested creation returned no sub entity")?.node_to_mutate.id
+                } else {
+                    q.mutate_entities[0].node_to_mutate.id
+                };
                 let (rowid, cdate) = self.rowid_of(&id)?;
                 self.sh.rows.push(MRow {
                     id,
@@ -335,20 +346,24 @@ impl World {
                 });
                 self.sh.rows.sort_by_key(|r| r.rowid);
             }
-            Ev::SetA { row, .. } | Ev::SetB { row, .. } | Ev::Clear { row } => {
+            Ev::SetA { row, .. } | Ev::SetANested { row, .. } | Ev::SetB { row, .. } | Ev::Clear { row } => {
                 let fields = match ev {
-                    Ev::SetA { v, .. } => format!("a:{}", val_lit(*v)),
+                    Ev::SetA { v, .. } | Ev::SetANested { v, .. } => format!("a:{}", val_lit(*v)),
                     Ev::SetB { v, .. } => format!("b:{}", val_lit(*v)),
                     _ => "a:null b:null".to_string(),
                 };
                 let id = self.sh.rows[*row].id;
                 let mut p = Parameters::default();
                 p.add("id", uid_encode(&id)).map_err(|e| e.to_string())?;
-                let text = format!("mutate {{ ns.P {{ id:$id {} }} }}", fields);
+                let text = if matches!(ev, Ev::SetANested { .. }) {
+                    format!("mutate {{ ns.H {{ kids:[{{ id:$id {} }}] }} }}", fields)
+                } else {
+                    format!("mutate {{ ns.P {{ id:$id {} }} }}", fields)
+                };
                 self.lp.mutate(&text, p)?;
                 let r = &mut self.sh.rows[*row];
                 match ev {
-                    Ev::SetA { v, .. } => r.a = *v,
+                    Ev::SetA { v, .. } | Ev::SetANested { v, .. } => r.a = *v,
                     Ev::SetB { v, .. } => r.b = *v,
                     _ => {
                         r.a = NULL;
@@ -481,6 +496,9 @@ pub struct Canon {
 
 #[derive(Clone, Debug)]
 pub struct Alphabet {
+    /// rows created / updated as sub entities of a holder row
+    pub nested_create: Vec<(Val, Val)>,
+    pub nested_set: Vec<Val>,
     pub create: Vec<(Val, Val)>,
     pub set_vals: Vec<Val>,
     pub deliver_new: Vec<(Val, Val)>,
@@ -494,7 +512,13 @@ impl Alphabet {
         for (a, b) in &self.create {
             e.push(Ev::Create { a: *a, b: *b });
         }
+        for (a, b) in &self.nested_create {
+            e.push(Ev::CreateNested { a: *a, b: *b });
+        }
         for row in 0..self.max_rows {
+            for v in &self.nested_set {
+                e.push(Ev::SetANested { row, v: *v });
+            }
             for v in &self.set_vals {
                 e.push(Ev::SetA { row, v: *v });
             }
@@ -517,6 +541,20 @@ impl Alphabet {
     }
 }
 
+/// rows written as sub entities of a holder row, next to plain writes of the same rows
+fn nested_alphabet(depth: usize) -> Alphabet {
+    Alphabet {
+        nested_create: vec![(1, NULL), (2, 3)],
+        nested_set: vec![3, NULL],
+        create: vec![(1, 2)],
+        set_vals: vec![1],
+        deliver_new: vec![],
+        deliver_version: vec![],
+        max_rows: 2,
+        depth,
+    }
+}
+
 /// the exploration passes of a tier: (label, alphabet)
 pub fn passes(tier: Tier) -> Vec<(&'static str, Alphabet)> {
     // rows hold 0..2 tokens
@@ -525,6 +563,8 @@ pub fn passes(tier: Tier) -> Vec<(&'static str, Alphabet)> {
         Tier::Quick => vec![(
             "wide",
             Alphabet {
+                nested_create: vec![],
+                nested_set: vec![],
                 create: vec![(NULL, NULL), (1, NULL), (3, NULL), (1, 2), (2, 3)],
                 set_vals: vec![NULL, 1, 3],
                 deliver_new: vec![(1, NULL), (2, 3)],
@@ -532,11 +572,18 @@ pub fn passes(tier: Tier) -> Vec<(&'static str, Alphabet)> {
                 max_rows: 3,
                 depth: 4,
             },
+        ),
+        (
+            "nested",
+            nested_alphabet(4),
         )],
         Tier::Thorough => vec![
+            ("nested", nested_alphabet(6)),
             (
                 "wide",
                 Alphabet {
+                    nested_create: vec![],
+                    nested_set: vec![],
                     create: all_texts,
                     set_vals: vec![NULL, 1, 2, 3, EMPTY],
                     deliver_new: vec![(1, NULL), (2, 3)],
@@ -548,6 +595,8 @@ pub fn passes(tier: Tier) -> Vec<(&'static str, Alphabet)> {
             (
                 "deep",
                 Alphabet {
+                    nested_create: vec![],
+                    nested_set: vec![],
                     create: vec![(NULL, NULL), (1, NULL), (1, 2)],
                     set_vals: vec![NULL, 1, 3],
                     deliver_new: vec![(1, NULL)],
@@ -602,13 +651,13 @@ fn cause_stale(r: &MRow, sh: &Shadow) -> &'static str {
 
 fn cause_engine_error(ev: &Ev, sh: &Shadow) -> String {
     let row = match ev {
-        Ev::SetA { row, .. } | Ev::SetB { row, .. } | Ev::Clear { row } | Ev::Delete { row } | Ev::DeliverVersion { row, .. } => {
+        Ev::SetA { row, .. } | Ev::SetANested { row, .. } | Ev::SetB { row, .. } | Ev::Clear { row } | Ev::Delete { row } | Ev::DeliverVersion { row, .. } => {
             sh.rows.get(*row)
         }
         _ => None,
     };
     let cause = match (ev, row) {
-        (Ev::SetA { .. } | Ev::SetB { .. } | Ev::Clear { .. }, Some(r)) => match r.last_write {
+        (Ev::SetA { .. } | Ev::SetANested { .. } | Ev::SetB { .. } | Ev::Clear { .. }, Some(r)) => match r.last_write {
             LastWrite::DeliveredNew => "of-row-delivered-by-synchronisation",
             LastWrite::DeliveredVersion => "of-newer-version-delivered-by-synchronisation",
             LastWrite::Local => {
